@@ -158,6 +158,23 @@ def generate(ctx):
         yield {"kind": "chi2", "cls": cls, "rcls": rcls, "fixed": fixed, "mobile0": mobile0, "mobile": mobile,
                "restr": _restr(rng, nf, nm, rcls), "restr_as": "array" if rng.random() < 0.25 else "list",
                "rigid": rigid, "perm_f": pf, "perm_m": pm}
+    # many mobile atoms, few fixed ones: k (mobile atoms neither restrained nor nearest) in the thousands.
+    # 1.1^k is still an ordinary double for k < 7448 (seed C08-4: exponent clamped at 1000 "against overflow")
+    for _ in range(ctx.n(3, 40)):
+        nf, nm = rng.randint(1, 3), rng.choice([1001, 1003, 1100, rng.randint(1002, 1500), rng.randint(1500, 3000)])
+        scale = 1.0
+        fixed = _coords(rng, nf, "float", scale)
+        mobile0 = _coords(rng, nm, "float", scale)
+        mobile = _coords(rng, nm, "float", scale)
+        rcls = rng.choice(["none", "partial", "total"])
+        pf = list(range(nf))
+        rng.shuffle(pf)
+        pm = list(range(nm))
+        rng.shuffle(pm)
+        yield {"kind": "chi2", "cls": "float", "rcls": rcls, "fixed": fixed, "mobile0": mobile0, "mobile": mobile,
+               "restr": _restr(rng, nf, nm, rcls), "restr_as": "list",
+               "rigid": {"m": _rot(rng), "t": [rng.gauss(0, 3) for _ in range(3)]}, "perm_f": pf, "perm_m": pm,
+               "huge": True}
     # off-quantifier streams: model comparison only
     m = ctx.n(150, 5000)
     for _ in range(m):
@@ -241,6 +258,17 @@ def _run(fixed, mobile0, mobile, restr, restr_as):
         out.update(stage="new", error=type(e).__name__)
         return out
     out["calc"] = calc
+    # The search evaluates ONE calculator on thousands of configurations.  Before the configuration under test
+    # the calculator is therefore used on two others (the construction configuration and a scrambled one with
+    # the same number of atoms); the value for `mobile` must not depend on that history (seed C08-3: a mask
+    # of "covered" mobile atoms built once and written into by every call).
+    if len(mobile) == len(mobile0) and len(mobile) > 0:
+        for decoy in (M0, _arr((M[::-1] * 1.9 + np.array([0.7, -1.3, 0.4])).tolist())):
+            try:
+                with np.errstate(all="ignore"):
+                    calc(decoy)
+            except Exception:  # noqa: BLE001  (the case under test decides what is reported)
+                pass
     try:
         with np.errstate(all="ignore"):
             v = calc(M)
@@ -351,6 +379,8 @@ def evaluate(ctx, case):
     ctx.count("coords:" + case["cls"])
     ctx.count("restr:" + case["rcls"])
     ctx.count("size:" + ("small" if nf * nm <= 24 else "medium" if nf * nm <= 200 else "large"))
+    if nm > 1000:
+        ctx.count("size:mobile>1000 (penalty exponent in the thousands)")
     _ask_new(ctx, case, fixed, mobile0, restr, res)
     _ask_call(ctx, case, "call", fixed, mobile0, mobile, restr, res)
     rc = case["rcls"]
